@@ -223,4 +223,15 @@ M = [('r3_revert_D3_eventmonitor_port',
   [('        unambiguous = len(set(reg_names + ["mux"])) == len(reg_names) + 1\n',
     '        unambiguous = len(set(reg_names + ["mux"])) == len(reg_names) + 2\n')],
   None),
+ # D12 reverted: PinSignature without __eq__ (identity comparison inherited from wiring.Signature)
+ ('r16_D12_pinsignature_eq_removed',
+  'amaranth_soc/gpio.py',
+  [('        return isinstance(other, PinSignature)\n',
+    '        return self is other\n')],
+  None),
+ ('r17_D12_pinsignature_eq_constant',
+  'amaranth_soc/gpio.py',
+  [('        return isinstance(other, PinSignature)\n',
+    '        return True\n')],
+  None),
 ]
